@@ -398,6 +398,20 @@ def run(ctx):
                 ctx.cov.setdefault("mirp_build_errors", []).append(f"bare:{horizon}:{name}:{exc_cls(e)}")
                 continue
             dist["mirp_orders"] += 1
+            # the cached object is the SAME object also when the caller kept no reference in between: what was done through
+            # the first request must still be there at the next one
+            first.vq_marker = ("seen", name)
+            del first, second, third
+            import gc
+            gc.collect()
+            again = get(make_feasible=False)
+            if getattr(again, "vq_marker", None) != ("seen", name):
+                ctx.violation("oracle/mirp/not-cached",
+                              f"the {name} formulation requested again after the caller dropped its reference is a NEW object "
+                              "(an attribute set through the first request is gone)",
+                              {"mirp": ["bare", horizon], "formulation": name,
+                               "calls": "r = get(make_feasible=False); r.vq_marker = ...; del r; gc.collect(); get(make_feasible=False)"}, True)
+            first = second = third = again
             if second is not first or third is not first:
                 ctx.violation("oracle/mirp/not-cached",
                               f"requesting the {name} formulation of a MIRP without entry arcs again returned a different object "
